@@ -18,12 +18,12 @@ def apply() -> None:
     if _applied:
         return
     _applied = True
-    _e1_groupdict()
-    _e2_dollar()
-    _e5_format()
-    _e8_no_shortcircuit()
-    _e9_concrete_dict_keys()
-    _e10_concat_eq()
+    import os
+    off = set(os.environ.get("VF_DISABLE", "").split(","))     # only used to validate the self-test itself
+    for name, fn in (("e1", _e1_groupdict), ("e2", _e2_dollar), ("e5", _e5_format), ("e8", _e8_no_shortcircuit),
+                     ("e9", _e9_concrete_dict_keys), ("e10", _e10_concat_eq)):
+        if name not in off:
+            fn()
     install_stats()
 
 
